@@ -92,6 +92,27 @@ CONFIG = {
             "a CID absent from the listing counts as unpinned",
         ],
     },
+    "C14": {
+        "pkg": "c14",
+        "regress": "^TestRegress",
+        "legs": [
+            {"run": "^TestMarshal$", "quick": (3000, 2), "thorough": (80000, 4)},
+            {"run": "^TestExportImportRaft$", "quick": (150, 3), "thorough": (4000, 4)},
+            {"run": "^TestExportImportCrdt$", "quick": (12, 4), "thorough": (400, 6)},
+            {"run": "^TestSnapshotOffline$", "quick": (300, 2), "thorough": (8000, 4)},
+            {"run": "^TestBackups$", "quick": (300, 3), "thorough": (8000, 4)},
+            {"run": "^TestPeerstoreRoundTrip$", "quick": (2000, 1), "thorough": (50000, 2)},
+            {"run": "^TestPeerstoreFile$", "quick": (3000, 1), "thorough": (80000, 2)},
+        ],
+        "floors": {"backups": {"nontrivial": 100}, "peerstore-file": {"nontrivial": 500}, "export-import-raft": {"nontrivial": 100}},
+        "assumptions": [
+            QUIC,
+            "the JSON export stream is one encoding/json api.Pin per line, which is what exportState writes",
+            "pre-existing backup folders with gaps get only the weak law (newest backup = cleaned data, at most one backup lost): the statement does not define gaps",
+            "peerstore lines are at most 10 KB (bufio.Scanner's 64 KB token limit is not exercised)",
+            "/dnsaddr addresses (which need DNS resolution) are not generated",
+        ],
+    },
     "C08": {
         "pkg": "c08",
         "regress": "^TestRegress",
